@@ -27,7 +27,8 @@ Ops ==
   \cup [op : {"bPath"}, b : Bids, m : {""}, v : {<<PathNo(S.made + 1)>>}]
   \cup [op : {"bProduces", "bConsumes"}, b : Bids, m : {""}, v : Lists]
   \cup [op : {"bFilter", "route"}, b : Bids, m : {""}, v : {<<>>}]
-  \cup [op : {"wsFilter"}, b : {0}, m : {""}, v : {<<>>}]
+  \cup [op : {"wsFilter", "cadd"}, b : {0}, m : {""}, v : {<<>>}]
+  \cup [op : {"rm"}, b : 1..Len(S.routes), m : {""}, v : {<<>>}]
 
 Init == S = InitState(Bids) /\ hist = <<>>
 Next == /\ Len(hist) < MaxOps
@@ -43,10 +44,12 @@ OwnDeclarationWins ==
   \A b \in Bids : S.bs[b].live /\ S.bs[b].ownP # <<>> /\ CanRegister(S, b)
                     => Step(S, [op |-> "route", b |-> b, m |-> "", v |-> <<>>], DefaultsAppend).routes[Len(S.routes) + 1].prod
                          = S.bs[b].ownP
+\* registered routes only ever change by RemoveRoute
 RoutesImmutable ==
-  [][\A i \in 1..Len(S.routes) : Visible(S', LazyDefaults)[i] = Visible(S, LazyDefaults)[i]]_vars
+  [][Len(S'.routes) >= Len(S.routes) =>
+       \A i \in 1..Len(S.routes) : Visible(S', LazyDefaults)[i] = Visible(S, LazyDefaults)[i]]_vars
 
 Export ==
-  (hist # <<>> /\ hist[Len(hist)].op = "route")
+  (hist # <<>> /\ hist[Len(hist)].op \in {"route", "rm"} /\ S.routes # <<>>)
      => PrintT("CASE " \o ToJson([ops |-> hist, n |-> Len(S.routes)]))
 =============================================================================
